@@ -80,7 +80,7 @@ func (fn *Function) CallInternal(thread *Thread, args Tuple, kwargs []Tuple) (Va
 	// Spill indicated locals to cells.
 	// Each cell is a separate alloc to avoid spurious liveness.
 	for _, index := range f.Cells {
-		locals[index] = &cell{locals[index]}
+		locals[index] = &cell{v: locals[index]}
 	}
 
 	// TODO(adonovan): add static check that beneath this point
@@ -601,7 +601,9 @@ loop:
 			sp--
 
 		case compile.SETLOCALCELL:
-			locals[arg].(*cell).v = stack[sp-1]
+			c := locals[arg].(*cell)
+			c.v = stack[sp-1]
+			c.frozen = false // the new value has not been frozen through this cell
 			sp--
 
 		case compile.SETGLOBAL:
@@ -702,13 +704,19 @@ func (mandatory) Hash() (uint32, error) { return 0, nil }
 // Cells are always accessed using indirect {FREE,LOCAL,SETLOCAL}CELL instructions.
 // The FreeVars tuple contains only cells.
 // The FREE instruction always yields a cell.
-type cell struct{ v Value }
+type cell struct {
+	v      Value
+	frozen bool // v has been frozen through this cell (guards against closure cycles)
+}
 
 func (c *cell) String() string { return "cell" }
 func (c *cell) Type() string   { return "cell" }
 func (c *cell) Freeze() {
-	if c.v != nil {
-		c.v.Freeze()
+	if !c.frozen {
+		c.frozen = true
+		if c.v != nil {
+			c.v.Freeze()
+		}
 	}
 }
 func (c *cell) Truth() Bool           { panic("unreachable") }
